@@ -765,9 +765,10 @@ func (detector *trzszDetector) detectTrzsz(output []byte, tunnel bool) ([]byte, 
 		tmuxPrefix = string(tmuxMatch[1])
 	}
 
-	if len(subOutput) > 40 {
+	// a trigger followed by the output of a finished transfer is scroll-back, not a new transfer
+	if tail := subOutput[bytes.Index(subOutput, match[0])+len(match[0]):]; len(tail) > 0 {
 		for _, s := range []string{"#CFG:", "Saved", "Cancelled", "Stopped", "Interrupted"} {
-			if bytes.Contains(subOutput[40:], []byte(s)) {
+			if bytes.Contains(tail, []byte(s)) {
 				return output, nil
 			}
 		}
